@@ -119,10 +119,15 @@ CHECKS = {
         text="Narrow claim, bounded-exhaustive exploration: 14 hostile strings (script element, attribute/event-handler injection, entity look-alikes, CDATA/comment delimiters, closing tags, control characters) x 12 places where source text reaches a page (module/function/class/attribute docstrings, param/return/raises fields, constant value, parameter default, string annotation, decorator argument, base-class subscript) x 5 docformats: every written page parses as XML (XML-illegal characters set aside), its element/attribute skeleton equals the one obtained with the same string whose < > & quotes are replaced (so the text introduced no element, attribute, script or handler), and the string is present as text. The escaping code itself (twisted, docutils, expat) is third party and is exercised, not modelled.",
         note="Trusted: CrossHair's exhaustion verdict over the choice variables; expat as the judge of well-formedness; the menu in harness/c10_markup.py. File-system side effects unblocked (mkdtemp only).",
     ),
+    "C09": dict(
+        level="exploration", design="DESIGN.md §8.9 (narrow claim; §4 explains why the full property is out of reach)",
+        technique="CrossHair (z3) enumerates documents of a structure-aware generator (blocks x fields x docformat) and certifies exhaustion; the real parsers and renderer run on each and the visible text is compared with the source words",
+        text="Narrow claim, bounded-exhaustive exploration: every document of <=2 (3) blocks from a menu of 7 (paragraph, inline markup, bullet list with nested item, ordered list, literal block with markup-looking characters, doctest block, section heading) plus every subset of 4 fields (param, return, raises, note), serialised to epytext, reStructuredText, google, numpy and plaintext: no warning for the well-formed text; every word appears in the visible text in source order; literal and doctest blocks are reproduced line by line with their relative indentation; consumed inline delimiters do not leak; each field's text is shown; plaintext is reproduced exactly. Nothing is claimed for docstrings outside the generator.",
+        note="Trusted: CrossHair's exhaustion verdict over the choice variables; the serialiser in harness/c09_text.py (a serialisation mistake shows up as a parser warning and was corrected while building: epytext wants lists indented).",
+    ),
 }
 
 NOT_APPLICABLE = {
-    "C09": "text conservation is a property of regex tokenisers, napoleon line munging and docutils transforms on unbounded structured strings; the 3-5 symbolic characters CrossHair can carry through regex code say nothing about paragraphs, lists and literal blocks",
 }
 
 PENDING = "check not built yet in this tree (planned in DESIGN.md; solver-based harness pending)"
